@@ -8,6 +8,11 @@ Stage 1 (correspondence): implementation (amgcl templates at vq::Q / std::comple
 the extracted Coq model (MatOps.v, MatOps2.v), byte for byte, in storage order.
 Stage 2 (oracle): the extracted Coq *specification* functions (dense definitions) are applied
 to the outputs of the implementation ("o.*" ops print OK / FAIL ...).
+
+Block and complex value types (driver matops_block, ops bm.* / cm.*): the same extracted models at BlockS QcS b /
+ComplexS QcS; oracles: the scalar dense definitions on the EXPANDED (unblocked) matrices where the operation commutes
+with expansion (product, transpose, scale, sort_rows, sum with scalar coefficients) and the specification functions
+evaluated at BlockS / ComplexS otherwise (bm.o.* / cm.o.* in ocaml/matops/ops_matops_block.ml).
 """
 import random
 from fractions import Fraction as F
